@@ -114,6 +114,16 @@ def rule_codec(ctx, rep):
                               "data word is stored bare on a path where %s is not excluded: the decoder would take it for a function word / mark" % sorted(need - got), site)
                     if marks:
                         MARK = marks[0]
+                    def _lf(x):
+                        return len(x) == 4 and x[0] == "icmp" and any(y == ("arg", 0) for y in (x[2], x[3])) and any(isinstance(y, tuple) and y[0] == "load" and y[1].endswith("defer_queue.last_fct_in") for y in (x[2], x[3]))
+                    # leaves known FALSE on this path: `last_fct_in != fct` false = same function; `last_fct_in == fct` false = different
+                    same = any(_lf(x) and x[1] == "ne" for x in fl_leaves) or any(a[0] == "eq" and any(y == ("arg", 0) for y in a[1:]) and any(isinstance(y, tuple) and y[0] == "load" and y[1].endswith("defer_queue.last_fct_in") for y in a[1:]) for a in atoms)
+                    diff = any(_lf(x) and x[1] == "eq" for x in fl_leaves) or any(a[0] == "ne" and any(y == ("arg", 0) for y in a[1:]) and any(isinstance(y, tuple) and y[0] == "load" and y[1].endswith("defer_queue.last_fct_in") for y in a[1:]) for a in atoms)
+                    if same or diff:
+                        rep.check(same and not diff, "C13.codec", "%s.enc.bare-data-same-fct" % fl, "a bare data slot is written only when the function equals the one last encoded",
+                                  "a bare data word is written on the path where last_fct_in != fct: the decoder invokes the *previous* function with this argument", site)
+                    else:
+                        rep.unk("C13.codec", "%s.enc.bare-data-same-fct" % fl, "the bare-data path does not test last_fct_in against fct in a form this rule recognises")
                 elif n == 2:
                     v0 = vals[0]
                     ok = v0[0] == "bin" and v0[1] == "or" and v0[2] == ("arg", 0) and v0[3][0] == "c" and vals[1] == ("arg", 1)
